@@ -1,4 +1,4 @@
-CONSTANTS D = 4  NStates = {1, 2, 3, 7}  Shapes = {0, 3}  Salts = {0, 1}  Stages = {0, 1, 2}  WinSets = {1, 2, 3, 4, 5}
+CONSTANTS D = 4  NStates = {1, 2, 3, 7}  Shapes = {0, 3}  Salts = {0, 1}  Stages = {0, 1, 2}  WinSets = {1, 2, 3, 4, 5, 7}
   MaxUttStates = 14  MaxLabels = 2  LabelIdx = {1, 2, 7}  CondIdx = {1, 2, 3, 4, 5, 6, 7, 8}
 SPECIFICATION Spec
 INVARIANTS Emit EmitVoice
